@@ -560,12 +560,15 @@ def translate_clip():
     # solve(): how the scaling tuple handed to remove_scaling is built (text), and apply_scaling
     try:
         fn = find_func(sol, "solve")
-        blk = [st for st in fn.body if isinstance(st, ast.If) and ast.unparse(st.test) == "scaling_within_bounds"
+        def guarded_by_flag(t):     # `scaling_within_bounds` alone, or a conjunction that starts with it
+            return ast.unparse(t) == "scaling_within_bounds" or (
+                isinstance(t, ast.BoolOp) and isinstance(t.op, ast.And) and ast.unparse(t.values[0]) == "scaling_within_bounds")
+        blk = [st for st in fn.body if isinstance(st, ast.If) and guarded_by_flag(st.test) and not st.orelse
                and any("scaling_changes" in ast.unparse(b) for b in st.body)]
         if len(blk) != 1:
             raise Unsupported("%d `if scaling_within_bounds:` blocks building scaling_changes" % len(blk))
         i = fn.body.index(blk[0])
-        lines = [ast.unparse(b) for b in blk[0].body]
+        lines = ["if %s:" % ast.unparse(blk[0].test)] + [ast.unparse(b) for b in blk[0].body]
         for st in fn.body[i + 1:i + 4]:
             lines.append(ast.unparse(st))
         ap = find_func(utl, "apply_scaling")
